@@ -37,6 +37,20 @@ type seqOracle struct {
 	multi   int
 	failed  bool
 	history []string
+	// renewSeen: a second OPN chunk (a renewal) was seen in this direction
+	// (client->server) or announced by the scenario (server->client)
+	opnSeen   int
+	renewSeen bool
+}
+
+// context separates violations that need a renewal from those that do not:
+// the open known finding for the client (a sender holding the old channel
+// instance across a renewal) cannot occur before the first renewal starts.
+func (o *seqOracle) context() string {
+	if o.renewSeen {
+		return "-after-renewal-started"
+	}
+	return "-without-renewal"
 }
 
 // frame checks one chunk written in this direction.
@@ -55,6 +69,12 @@ func (o *seqOracle) frame(fr []byte) {
 		return
 	}
 	o.chunks++
+	if ch.Type == "OPN" {
+		o.opnSeen++
+		if o.opnSeen > 1 {
+			o.renewSeen = true
+		}
+	}
 	o.history = append(o.history, fmt.Sprintf("%s%c seq=%d req=%d", ch.Type, ch.ChunkType, ch.Seq, ch.RequestID))
 	if len(o.history) > 12 {
 		o.history = o.history[1:]
@@ -73,14 +93,14 @@ func (o *seqOracle) frame(fr []byte) {
 			} else if ch.Seq < o.last {
 				kind = "backwards"
 			}
-			o.s.Fail(o.prop, "sequence-number", kind+"-"+o.name, "%s: chunk carries sequence number %d after %d; last chunks: %v", o.name, ch.Seq, o.last, o.history)
+			o.s.Fail(o.prop, "sequence-number", kind+"-"+o.name+o.context(), "%s: chunk carries sequence number %d after %d; last chunks: %v", o.name, ch.Seq, o.last, o.history)
 			return
 		}
 	}
 	o.last, o.have = ch.Seq, true
 	if o.openHas && ch.RequestID != o.openReq {
 		o.failed = true
-		o.s.Fail(o.prop, "interleaved-chunks", o.name, "%s: chunk of request %d between the chunks of request %d; last chunks: %v", o.name, ch.RequestID, o.openReq, o.history)
+		o.s.Fail(o.prop, "interleaved-chunks", o.name+o.context(), "%s: chunk of request %d between the chunks of request %d; last chunks: %v", o.name, ch.RequestID, o.openReq, o.history)
 		return
 	}
 	switch ch.ChunkType {
@@ -95,16 +115,23 @@ func (o *seqOracle) frame(fr []byte) {
 }
 
 type renewPlan struct {
-	Senders    int    `json:"senders"`
-	PerSender  int    `json:"requests_per_sender"`
-	BigEvery   int    `json:"multi_chunk_every"` // every n-th request is multi chunk (0: never)
-	Renews     int    `json:"explicit_renews"`
-	LifetimeMs uint32 `json:"lifetime_ms"`
-	StartSeq   uint32 `json:"start_seq"`
-	ThinkMs    int    `json:"think_ms"`
-	LatencyUs  int    `json:"latency_us"`
-	FreshToken bool   `json:"fresh_token_on_renew"`
-	DurationS  int    `json:"duration_lifetimes"`
+	Senders      int    `json:"senders"`
+	PerSender    int    `json:"requests_per_sender"`
+	BigEvery     int    `json:"multi_chunk_every"` // every n-th request is multi chunk (0: never)
+	Renews       int    `json:"explicit_renews"`
+	LifetimeMs   uint32 `json:"lifetime_ms"`
+	StartSeq     uint32 `json:"start_seq"`
+	ThinkMs      int    `json:"think_ms"`
+	LatencyUs    int    `json:"latency_us"`
+	FreshToken   bool   `json:"fresh_token_on_renew"`
+	RenewDelayMs int    `json:"first_renew_after_ms"`
+	// RealServer: the peer is a real server-kind uasc.SecureChannel whose
+	// responses are sent by concurrent responder goroutines instead of the script
+	RealServer   bool   `json:"real_server_channel"`
+	Responders   int    `json:"responders,omitempty"`
+	SrvStartSeq  uint32 `json:"server_start_seq,omitempty"`
+	BigRespEvery int    `json:"multi_chunk_response_every,omitempty"`
+	DurationS    int    `json:"duration_lifetimes"`
 }
 
 type renewRun struct {
@@ -126,8 +153,17 @@ func (r *renewRun) setup(s *sim.Sim, mode string) {
 	r.FreshToken = p.Bool()
 	r.StartSeq = sim.Pick(p, uint32(0), 0, 0xffffffff-1030, 0xffffffff-1024-3)
 	if mode == "c11" {
-		r.Renews = 1 + p.Intn(4)
+		// a fifth of the runs has no renewal at all: whatever goes wrong
+		// there cannot be put down to the (known) renewal window
+		r.Renews = p.Intn(5)
 		r.LifetimeMs = 3600000
+		r.RenewDelayMs = sim.Pick(p, 0, 0, 1, 10, 100)
+		if p.Chance(2, 5) {
+			r.RealServer = true
+			r.Responders = 1 + p.Intn(4)
+			r.SrvStartSeq = sim.Pick(p, uint32(0), 100, 0xffffffff-1030, 0xffffffff-1024-3)
+			r.BigRespEvery = sim.Pick(p, 0, 2, 3)
+		}
 	} else {
 		r.Renews = 0
 		r.LifetimeMs = sim.Pick(p, uint32(300), 1000, 1500, 2100, 2500, 4000, 8000, 30000, 120000)
@@ -141,6 +177,10 @@ func (r *renewRun) setup(s *sim.Sim, mode string) {
 }
 
 func (r *renewRun) Main(s *sim.Sim) {
+	if r.RealServer {
+		r.mainRealServer(s)
+		return
+	}
 	srv, err := newRawServer(s, srvAddr)
 	if err != nil {
 		s.Fail("HARNESS", "setup", "rawsrv", "%v", err)
@@ -250,7 +290,7 @@ func (r *renewRun) Main(s *sim.Sim) {
 		wg.Add(1)
 		go func(k int) {
 			defer wg.Done()
-			time.Sleep(time.Duration(k*r.ThinkMs) * time.Millisecond)
+			time.Sleep(time.Duration(k*r.ThinkMs+r.RenewDelayMs) * time.Millisecond)
 			s.Yield("renewer")
 			if err := sc.Renew(ctx); err != nil {
 				mu.Lock()
@@ -333,6 +373,202 @@ func (r *renewRun) Main(s *sim.Sim) {
 }
 
 func (r *renewRun) Finish(s *sim.Sim) {}
+
+// mainRealServer: real client channel <-> real server-kind channel. The
+// server side answers every request from one of several responder goroutines
+// (SendResponseWithContext), single and multi chunk, while the client renews
+// the token; both directions are checked on the wire.
+func (r *renewRun) mainRealServer(s *sim.Sim) {
+	ctx, cancel := context.WithCancel(context.Background())
+	defer cancel()
+	s.Net.DefLatency = time.Duration(r.LatencyUs) * time.Microsecond
+	c2s := &seqOracle{s: s, prop: "C11", name: "client->server"}
+	s2c := &seqOracle{s: s, prop: "C11", name: "server->client"}
+	s.Net.OnConn = func(c *sim.Conn) {
+		c.C2S.Observers = append(c.C2S.Observers, c2s.frame)
+		c.S2C.Observers = append(c.S2C.Observers, func(fr []byte) {
+			s2c.renewSeen = c2s.renewSeen // a renewal is requested by the client
+			s2c.frame(fr)
+		})
+	}
+	ack := &uacp.Acknowledge{ReceiveBufSize: 8192, SendBufSize: 8192, MaxMessageSize: 1 << 20, MaxChunkCount: 64}
+	l, err := uacp.Listen(ctx, srvURL, ack)
+	if err != nil {
+		s.Fail("HARNESS", "setup", "listen", "%v", err)
+		return
+	}
+	defer l.Close()
+	var mu sync.Mutex
+	var failed []string
+	var srvWG sync.WaitGroup
+	srvErr := make(chan error, 8)
+	go func() {
+		conn, err := l.Accept(ctx)
+		if err != nil {
+			return
+		}
+		errch := make(chan error, 64)
+		start := r.SrvStartSeq
+		if start == 0 {
+			start = 100
+		}
+		ssc, err := uasc.NewServerSecureChannel("", conn, &uasc.Config{SecurityPolicyURI: ua.SecurityPolicyURINone, SecurityMode: ua.MessageSecurityModeNone, Lifetime: r.LifetimeMs}, errch, 4242, start, 7)
+		if err != nil {
+			srvErr <- err
+			return
+		}
+		work := make(chan *uasc.MessageBody, 256)
+		for w := 0; w < r.Responders; w++ {
+			srvWG.Add(1)
+			go func(w int) {
+				defer srvWG.Done()
+				for msg := range work {
+					rr, ok := msg.Request().(*ua.ReadRequest)
+					if !ok {
+						continue
+					}
+					s.Yield("responder")
+					n := 0
+					if r.BigRespEvery > 0 && int(rr.MaxAge)%r.BigRespEvery == 1 {
+						n = 20000 // ~3 chunks of 8 KB
+					}
+					resp := &ua.ReadResponse{ResponseHeader: rawRespHeader(rr.RequestHeader.RequestHandle, ua.StatusOK), Results: []*ua.DataValue{{EncodingMask: ua.DataValueValue, Value: ua.MustVariant(rr.MaxAge)}, {EncodingMask: ua.DataValueValue, Value: ua.MustVariant(make([]byte, n))}}}
+					if err := ssc.SendResponseWithContext(ctx, msg.RequestID, resp); err != nil {
+						mu.Lock()
+						failed = append(failed, fmt.Sprintf("server: SendResponse for request id %d at %v: %v", msg.RequestID, s.Now(), err))
+						mu.Unlock()
+					}
+				}
+			}(w)
+		}
+		defer close(work)
+		for {
+			msg := ssc.Receive(ctx)
+			if msg.Err != nil {
+				srvErr <- msg.Err
+				return
+			}
+			select {
+			case work <- msg:
+			default:
+				srvErr <- fmt.Errorf("harness: responder queue full")
+				return
+			}
+		}
+	}()
+	d := &uacp.Dialer{ClientACK: &uacp.Acknowledge{ReceiveBufSize: 8192, SendBufSize: 8192}}
+	conn, err := d.Dial(ctx, srvURL)
+	if err != nil {
+		s.Fail("HARNESS", "setup", "dial", "%v", err)
+		return
+	}
+	errch := make(chan error, 256)
+	cfg := &uasc.Config{SecurityPolicyURI: ua.SecurityPolicyURINone, SecurityMode: ua.MessageSecurityModeNone, Lifetime: r.LifetimeMs, RequestTimeout: 5 * time.Second}
+	sc, err := uasc.NewSecureChannel(srvURL, conn, cfg, errch)
+	if err == nil {
+		err = sc.Open(ctx)
+	}
+	if err != nil {
+		s.Fail("HARNESS", "setup", "open", "%v", err)
+		return
+	}
+	if r.StartSeq != 0 {
+		sc.VerifSetSequenceNumber(r.StartSeq)
+		c2s.have = false
+	}
+	var wg sync.WaitGroup
+	call := func(marker float64, big bool) {
+		req := &ua.ReadRequest{MaxAge: marker}
+		n := 1
+		if big {
+			n = 400
+		}
+		for k := 0; k < n; k++ {
+			req.NodesToRead = append(req.NodesToRead, &ua.ReadValueID{NodeID: ua.NewStringNodeID(1, "some.node.name.to.fill.space"), AttributeID: ua.AttributeIDValue, DataEncoding: &ua.QualifiedName{}})
+		}
+		var got float64 = -1
+		err := sc.SendRequestWithTimeout(ctx, req, nil, 5*time.Second, func(v ua.Response) error {
+			if rr, ok := v.(*ua.ReadResponse); ok && len(rr.Results) == 2 && rr.Results[0].Value != nil {
+				got, _ = rr.Results[0].Value.Value().(float64)
+			}
+			return nil
+		})
+		if err != nil || got != marker {
+			mu.Lock()
+			failed = append(failed, fmt.Sprintf("request %v at %v: err=%v got=%v", marker, s.Now(), err, got))
+			mu.Unlock()
+		} else {
+			s.Probe("request-ok")
+		}
+	}
+	for w := 0; w < r.Senders; w++ {
+		wg.Add(1)
+		go func(w int) {
+			defer wg.Done()
+			for i := 0; i < r.PerSender; i++ {
+				if r.ThinkMs > 0 {
+					time.Sleep(time.Duration(r.ThinkMs) * time.Millisecond)
+				}
+				s.Yield("sender")
+				call(float64(w*10000+i), r.BigEvery > 0 && i%r.BigEvery == 1)
+			}
+		}(w)
+	}
+	for k := 0; k < r.Renews; k++ {
+		wg.Add(1)
+		go func(k int) {
+			defer wg.Done()
+			time.Sleep(time.Duration(k*r.ThinkMs+r.RenewDelayMs) * time.Millisecond)
+			s.Yield("renewer")
+			if err := sc.Renew(ctx); err != nil {
+				mu.Lock()
+				failed = append(failed, fmt.Sprintf("Renew: %v", err))
+				mu.Unlock()
+			} else {
+				s.Probe("explicit-renew-ok")
+			}
+		}(k)
+	}
+	done := make(chan struct{})
+	go func() { wg.Wait(); close(done) }()
+	select {
+	case <-done:
+	case <-time.After(60 * time.Second):
+		s.Fail("C16", "hang", "senders-or-renew-blocked", "requests / Renew calls did not return within 60 s around a renewal (real server channel)\n%s", clientStacks())
+		return
+	}
+	if (s2c.multi > 0 || c2s.multi > 0) && c2s.opnSeen > 1 {
+		s.Nontrivial()
+	}
+	if s2c.multi > 0 {
+		s.Probe("multi-chunk-response")
+	}
+	if s2c.wraps > 0 {
+		s.Probe("seq-wrapped-server->client")
+	}
+	s.Info["wire"] = fmt.Sprintf("c2s chunks=%d multi=%d wraps=%d opn=%d; s2c chunks=%d multi=%d wraps=%d", c2s.chunks, c2s.multi, c2s.wraps, c2s.opnSeen, s2c.chunks, s2c.multi, s2c.wraps)
+	if len(failed) > 0 && !s.Failed() {
+		s.Fail("C16", "request-failed-around-renewal", "request-failed-real-server-channel", "%d requests / renew calls / responses failed although the network is fault free: %v", len(failed), failed[:min(len(failed), 4)])
+		return
+	}
+	select {
+	case e := <-srvErr:
+		if !s.Failed() {
+			s.Fail("C16", "channel-error", "server-channel-error", "the server channel ended with %v on a fault free network", e)
+			return
+		}
+	case e := <-errch:
+		if !s.Failed() {
+			s.Fail("C16", "channel-error", "error-reported", "the channel reported %v on a fault free network", e)
+			return
+		}
+	default:
+	}
+	s.Teardown()
+	sc.Close()
+	conn.Close()
+	cancel()
+}
 
 type c11Run struct{ renewRun }
 type c16Run struct{ renewRun }
